@@ -67,8 +67,8 @@ LEVEL_TEXT = (
 )
 TRUSTED = [
     "CPython ast / re (re._parser) / urllib.parse.unquote applied to constants of the source and of the scenarios",
-    "the symbolic interpreter in wzsa/rules/_c04_helpers.py: Python semantics of the subset it models (incl. generators and the itertools iterators takewhile / dropwhile / filterfalse / starmap / chain / islice / zip_longest / accumulate / pairwise / compress / groupby over interpreted callables and objects, element by element as lazily as the real ones; a condition on the same opaque values evaluated twice on one path has one answer); anything else aborts with ANALYSIS-ERROR",
-    "library contracts used as inverse pairs: int(str(int(v)).zfill(n)) == v, float(str(float(v))) == v, uuid.UUID(str(u)) == u, unquote(quote(s, safe)) == s",
+    "the symbolic interpreter in wzsa/rules/_c04_helpers.py: Python semantics of the subset it models (incl. generators and the itertools iterators takewhile / dropwhile / filterfalse / starmap / chain / islice / zip_longest / accumulate / pairwise / compress / groupby over interpreted callables and objects, element by element as lazily as the real ones; functools.partial, types.MethodType, contextlib.suppress, collections.ChainMap / deque over interpreted values; Base.method(self, ...) as the bound call; f(first=x) as f(x) for library calls; a condition on the same opaque values evaluated twice on one path has one answer; a bare object() marker is identical to no value); anything else aborts with ANALYSIS-ERROR",
+    "library contracts used as inverse pairs: int(str(int(v)).zfill(n)) == v, float(str(float(v))) == v, uuid.UUID(str(u)) == u, unquote(quote(s, safe)) == s; quote(s, safe) == quote_from_bytes(s.encode('utf-8'), safe); text.zfill(n) == text for n <= 0",
 ]
 ASSUMPTIONS = [
     "a server percent-decodes the path once (UTF-8) before routing and splits the URL at the first '?' and '#'",
@@ -164,6 +164,8 @@ def classify_text(term: t.Any, base: t.Callable[[t.Any], bool]) -> dict[str, t.A
         inner = classify_text(term.args[0], base)
         if inner is None or inner.get("pad") is not None or inner["kind"] not in ("num", "str"):
             return None
+        if term.args[2][0] <= 0:
+            return inner  # zfill(0) (`.zfill(self.fixed_digits or 0)`) pads nothing
         return {**inner, "pad": term.args[2][0]}
     if term.op == "call" and term.args[0] in _QUOTE_FAMILY:
         a = term.args[1]
@@ -612,6 +614,8 @@ def rule_converters(ctx: Ctx, repo, present: set[str], harvest) -> dict[str, str
                             else:
                                 cpy = classify_python(o.value, is_s)
                                 res.append("returns " + show(o.value) if cpy is not None else "returns ?" + show(o.value))
+                        if any(r.startswith("returns ?") for r in res):
+                            raise AnalysisError(f"{cfg}.to_python(text of length {L}) returns a form that is not understood: {[r for r in res if r.startswith('returns ?')][0][9:]}")
                         if L == fixed:
                             okl = all(r.startswith("returns ") and not r.startswith("returns ?") for r in res)
                             inst = f"{cfg}: to_python converts a text of exactly {fixed} characters"
@@ -871,6 +875,10 @@ def rule_match(ctx: Ctx, repo, present: set[str], kinds: dict[str, str]) -> None
                             return isinstance(x, Sym) and x.op == "group" and f"seg('{src}')" in H._key(x.args[0]) and not any(f"seg('{o_}')" in H._key(x.args[0]) for o_ in sc["expect"] if o_ != src and sc["expect"][o_][0] != "const")
 
                         cp = classify_python(got, from_own_segment)
+                        if cp is None and isinstance(got, Sym) and classify_python(got, lambda x: isinstance(x, Sym) and x.op == "group") is None:
+                            # neither a captured text nor a conversion / known text operation of one: the form of the
+                            # value is not understood (a value of a known form from the wrong place is a difference)
+                            raise AnalysisError(f"match ({sid}): the value returned for {var!r} is not understood: {show(got)}")
                         if kind == "text":
                             good_v = cp is not None and cp["kind"] == "identity"
                         else:
@@ -922,6 +930,9 @@ def rule_assembly(ctx: Ctx, repo, present: set[str], harvest) -> None:
                     alt = conds(o)
                     if alt is not None:
                         exp = merge_expected(alt)
+                if not H.is_str_term(o.value["url"]):
+                    raise AnalysisError(f"build ({cid}) returned a non-string {show(o.value['url'])}")
+                require_understood(o.value["url"], f"build ({cid})")
                 got = decoded(o.value["url"])
                 _ob(ctx, "R4.7", f"build ({cid}): URL is root + path on the right host", same_pieces(got, exp), f"built {show(o.value['url'])}; wanted {show(exp)}" + (f" under {[(c[0], c[1]) for c in o.conds]}" if o.conds else ""), w_, f"assembly {cid}")
         except AnalysisError as exc:  # this scenario is not understood; others still count
@@ -1090,6 +1101,9 @@ def rule_history(ctx: Ctx, repo, present: set[str]) -> None:
                     _ob(ctx, "R4.8", f"history ({sid}): a build after the match succeeds for other values", False, f"build raised {_describe_exc(url)} after a match of the same rule" + under, where_b, f"history {sid} build raises")
                 else:
                     exp = merge_expected(v["want"])
+                    if not H.is_str_term(url):
+                        raise AnalysisError(f"history ({sid}): build returned a non-string {show(url)}")
+                    require_understood(url, f"history ({sid}): build after the match")
                     got = decoded(url)
                     _ob(ctx, "R4.8", f"history ({sid}): a build after the match returns the URL of its own values", same_pieces(got, exp), f"built {show(url)}; wanted {show(exp)}" + under, where_b, f"history {sid} build after match")
                 rv2 = v["rv2"]
@@ -1119,7 +1133,10 @@ def rule_quoting(ctx: Ctx, repo, sites: dict[tuple, dict[str, t.Any]]) -> None:
         label = f"{key[1]}"
         n_static += 1 if d["static"] else 0
         n_dynamic += 1 if d["dynamic"] else 0
-        ctx.ob("R4.1", f"quoting in {label}: path text is produced by urllib.parse.quote", d["fq"] == "urllib.parse.quote", f"call resolves to {d['fq']} (quote_plus writes ' ' as '+', which a server does not decode in a path)", where, node, f"quote function in {label}")
+        # quote(text) is by definition quote_from_bytes(text.encode(encoding, errors)): the bytes form is the same function,
+        # its encoding is that of the encode() step that made the bytes
+        from_bytes = d["fq"] == "urllib.parse.quote_from_bytes"
+        ctx.ob("R4.1", f"quoting in {label}: path text is produced by urllib.parse.quote", d["fq"] == "urllib.parse.quote" or from_bytes, f"call resolves to {d['fq']} (quote_plus writes ' ' as '+', which a server does not decode in a path)", where, node, f"quote function in {label}")
         safes = set()
         encs = set()
         for args, kwargs in d["uses"]:
@@ -1129,8 +1146,18 @@ def rule_quoting(ctx: Ctx, repo, sites: dict[tuple, dict[str, t.Any]]) -> None:
             if not isinstance(safe, str):
                 raise AnalysisError(f"quoting in {label}: the safe set is not a constant: {show(safe)}")
             safes.add(safe)
-            enc = kwargs.get("encoding", args[2] if len(args) > 2 else None)
-            err = kwargs.get("errors", args[3] if len(args) > 3 else None)
+            if from_bytes:
+                a0 = args[0] if args else kwargs.get("bs")
+                if isinstance(a0, (bytes, bytearray)):
+                    continue  # constant text: what it decodes to is compared piece by piece in R4.3
+                if not (isinstance(a0, Sym) and a0.op == "method" and a0.args[1] == "encode" and H.deep_concrete(a0.args[2]) and H.deep_concrete(a0.args[3])):
+                    raise AnalysisError(f"quoting in {label}: quote_from_bytes is given {show(a0)}, not the encode() of a text")
+                ekw = dict(a0.args[3])
+                enc = ekw.get("encoding", a0.args[2][0] if a0.args[2] else None)
+                err = ekw.get("errors", a0.args[2][1] if len(a0.args[2]) > 1 else None)
+            else:
+                enc = kwargs.get("encoding", args[2] if len(args) > 2 else None)
+                err = kwargs.get("errors", args[3] if len(args) > 3 else None)
             if isinstance(enc, Sym) or isinstance(err, Sym):
                 raise AnalysisError(f"quoting in {label}: symbolic encoding")
             encs.add(((enc or "utf-8").lower().replace("_", "-"), (err or "strict")))
